@@ -12,7 +12,7 @@ from tracklib.algo.analytics import ds as af_ds, speed as af_speed
 from tracklib.algo.cinematics import computeAbsCurv
 
 from vt import gen
-from vt.core import SubCheck, Violation, same
+from vt.core import HarnessError, SubCheck, Violation, same
 
 REL = 1e-9                      # stated tolerance, relative to the quantity compared
 EPS = 2.0 ** -52
@@ -30,6 +30,17 @@ ASSUMPTIONS = [
     "before the extract and is not 0); a hand-written ds with arbitrary numbers is outside the property",
     "abs_curv is not present before the first computeAbsCurv call (a stale abs_curv is returned as is, by design of the API)",
     "features other than abs_curv / speed / ds are carried along but nothing is demanded of them",
+    "two-object histories (case['part']): a second Track object is derived from the track by extract / slice / > / < / % "
+    "(it shares the Obs objects, and tracklib stores feature values positionally in the Obs) and the operations of the "
+    "script are applied to the part ('@p') or to the whole in any order; each track is judged against its own fixes. "
+    "A call is judged in full when it computes its feature afresh on that track (the feature is not yet in that track's "
+    "table, or it was computed on that very track and nothing was computed through the other track since); "
+    "addAnalyticalFeature(speed) always recomputes and is always judged.  Not judged (counted as 'not-judged:*'): a call that "
+    "returns a feature the part inherited at derivation (it belongs to the parent's geometry, same rule as a stale "
+    "abs_curv) or a stored feature after the other track wrote into the shared Obs; the stored features are re-read at "
+    "the end only on the track that computed last",
+    "the part is derived while the whole carries no ds feature: a ds listed in both tables and then removed through one "
+    "track shifts the positional feature slots of the other (storage design of Obs.features, outside the statement)",
 ]
 
 
@@ -101,69 +112,193 @@ def _check_speed(V, spd, exact, what):
                 what, i, g, want, d, dt))
 
 
+def _part_indices(part, n):
+    """indices (in the whole track) of the fixes of the derived part; parameters are normalised so that any two
+    integers give a part of >= 2 fixes"""
+    how, a, b = part["how"], part.get("a", 0), part.get("b", 0)
+    if how in ("extract", "slice"):
+        a = a % (n - 1)
+        b = a + 1 + b % (n - 1 - a)
+        return list(range(a, b + 1)), (a, b)
+    if how == "gt":
+        a = a % (n - 1)
+        return list(range(a, n)), (a,)
+    if how == "lt":
+        a = a % (n - 1)
+        return list(range(0, n - a)), (a,)
+    if how == "mod":
+        k = 1 + a % (n - 1)
+        return list(range(0, n, k)), (k,)
+    raise HarnessError("unknown derivation %r" % (how,))
+
+
+def _derive(tr, part, n):
+    idxs, prm = _part_indices(part, n)
+    how = part["how"]
+    if how == "extract":
+        sub = tr.extract(prm[0], prm[1])
+    elif how == "slice":
+        sub = tr[prm[0]:prm[1] + 1]
+    elif how == "gt":
+        sub = tr > prm[0]
+    elif how == "lt":
+        sub = tr < prm[0]
+    else:
+        sub = tr % prm[0]
+    return sub, idxs
+
+
+class _Side:
+    """one of the two Track objects of a case with its model: fixes, expected values and the model of its feature
+    table (name -> 'own' computed on this track and not touched since | 'inh-ok' ds of a longer contiguous track |
+    'inh' inherited at derivation (belongs to another geometry) | 'clob' possibly overwritten through the other
+    track, which shares the Obs objects)"""
+
+    def __init__(self, label, tr, pts, times, names):
+        self.label, self.tr, self.pts, self.times, self.names = label, tr, pts, times, names
+        self.legs, self.cum, self.spd = _model(pts, times)
+        self.exact = all(t % 125 == 0 for t in times)
+        self.first_abs = None
+        self.judged = 0
+        self.other = None
+
+    def touch_other(self):
+        if self.other is not None:
+            for k in self.other.names:
+                self.other.names[k] = "clob"
+
+
 def _run(case):
     """case: pts [[x,y,z]] (n>=2), t0 ms, dts [n-1 ms >= 0], ops [..], inherit None | {'pt': [x,y,z], 'dt': ms},
-    extra: bool (two unrelated features, one created before everything, one between the operations)"""
+    extra: bool (two unrelated features, one created before everything, one between the operations),
+    part: None | {'how': extract|slice|gt|lt|mod, 'a', 'b', 'at'}: before operation number 'at' a second Track object is
+    derived from the track (it shares the Obs objects); an operation 'xxx@p' is applied to the derived part, 'xxx' to the
+    whole track"""
     pts = [tuple(float(c) for c in p) for p in case["pts"]]
     n = len(pts)
     times = [case["t0"]]
     for d in case["dts"]:
         times.append(times[-1] + d)
-    legs, cum, spd = _model(pts, times)
-    exact = all(t % 125 == 0 for t in times)
+    part = case.get("part")
+    ops = case["ops"]
+    if part is not None and (part["at"] < 0 or any(o.endswith("@p") for o in ops[:part["at"]])):
+        return {"undef": True}
 
     inh = case.get("inherit")
     feats = {"note": [float(7 * i) for i in range(n + 1)]} if case.get("extra") else {}
+    names = {"note": "own"} if case.get("extra") else {}
     if inh:
         lead = tuple(float(c) for c in inh["pt"])
         parent = gen.make_track([lead] + pts, [max(times[0] - inh["dt"], 0)] + times, feats)
         parent.addAnalyticalFeature(af_ds)
         tr = parent.extract(1, n)
+        names["ds"] = "inh-ok"
     else:
         tr = gen.make_track(pts, times, {k: v[:n] for k, v in feats.items()})
+    W = _Side("whole", tr, pts, times, names)
+    sides = {"w": W}
+    cls = []
 
     have_abs = have_speed = False
-    first_abs = None
-    for step, op in enumerate(case["ops"]):
-        what = "op %d (%s) of %s" % (step, op, case["ops"])
-        if op == "abs":
-            S = computeAbsCurv(tr)
-            _check_abscurv(S, legs, cum, what)
-            stored = tr.getAnalyticalFeature("abs_curv")
-            if len(stored) != len(S) or not all(same(a, b) for a, b in zip(S, stored)):
-                raise Violation("abscurv-return-differs-from-feature", "%s: returned %r, stored %r" % (what, S, stored))
-            if first_abs is not None and not all(same(a, b) for a, b in zip(S, first_abs)):
-                raise Violation("abscurv-not-repeatable", "%s: %r, first call gave %r" % (what, S, first_abs))
-            if first_abs is None:
-                first_abs = list(S)
-            if "ds" in tr.getListAnalyticalFeatures():
-                raise Violation("abscurv-leaves-ds", "%s: features %s" % (what, tr.getListAnalyticalFeatures()))
-            have_abs = True
-        elif op == "ds":
-            tr.addAnalyticalFeature(af_ds)
-        elif op in ("speed_est", "speed_add"):
-            V = tr.estimate_speed() if op == "speed_est" else tr.addAnalyticalFeature(af_speed)
-            _check_speed(V, spd, exact, what)
-            have_speed = True
-        elif op == "note":
-            if not tr.hasAnalyticalFeature("note2"):
-                tr.createAnalyticalFeature("note2", [float(-i) for i in range(n)])
-    # final state: the features still read as defined, fixes untouched
-    if have_abs:
-        _check_abscurv(tr.getAnalyticalFeature("abs_curv"), legs, cum, "feature abs_curv after %s" % case["ops"])
-    if have_speed:
-        _check_speed(tr.getAnalyticalFeature("speed"), spd, exact, "feature speed after %s" % case["ops"])
-    if tr.size() != n:
-        raise Violation("fixes-changed", "track has %d fixes, had %d" % (tr.size(), n))
-    for i in range(n):
-        o = tr.getObs(i)
-        now = (o.position.getX(), o.position.getY(), o.position.getZ(), gen.ms_of_obstime(o.timestamp))
-        was = pts[i] + (times[i],)
-        if not all(same(a, b) for a, b in zip(now, was)):
-            raise Violation("fixes-changed", "fix %d is %r, was %r" % (i, now, was))
+    for step, op in enumerate(ops):
+        if part is not None and step == part["at"]:
+            if "ds" in W.names:
+                # a ds listed in both tables and then removed through one of the two tracks shifts the slots of the
+                # other one (tracklib stores features positionally in the shared Obs): outside the statement
+                return {"undef": True, "cls": ["part-derived-while-ds-present"]}
+            sub, idxs = _derive(W.tr, part, n)
+            if sub.size() != len(idxs):
+                raise Violation("derived-part-size", "%s%r of %d fixes has %d fixes, expected %d" % (
+                    part["how"], _part_indices(part, n)[1], n, sub.size(), len(idxs)))
+            P = _Side("part", sub, [pts[i] for i in idxs], [times[i] for i in idxs], {k: "inh" for k in W.names})
+            P.other, W.other = W, P
+            sides["p"] = P
+        name, _, tgt = op.partition("@")
+        X = sides[tgt or "w"]
+        what = "op %d (%s) of %s%s" % (step, op, ops, "" if part is None else " with part %r" % (part,))
+        nm = X.names
+        if name == "abs":
+            t_ds, t_abs = nm.get("ds"), nm.get("abs_curv")
+            judged = t_abs == "own" or (t_abs is None and t_ds in (None, "own", "inh-ok"))
+            S = computeAbsCurv(X.tr)
+            if judged:
+                _check_abscurv(S, X.legs, X.cum, what)
+                stored = X.tr.getAnalyticalFeature("abs_curv")
+                if len(stored) != len(S) or not all(same(a, b) for a, b in zip(S, stored)):
+                    raise Violation("abscurv-return-differs-from-feature", "%s: returned %r, stored %r" % (what, S, stored))
+                if t_abs == "own" and X.first_abs is not None and not all(same(a, b) for a, b in zip(S, X.first_abs)):
+                    raise Violation("abscurv-not-repeatable", "%s: %r, first call gave %r" % (what, S, X.first_abs))
+                if X.first_abs is None:
+                    X.first_abs = list(S)
+                nm["abs_curv"] = "own"
+                X.judged += 1
+                have_abs = True
+            else:
+                cls.append("not-judged:abs_curv-inherited-or-overwritten-through-shared-obs")
+                if t_abs is None:
+                    nm["abs_curv"] = "clob"
+            if "ds" in X.tr.getListAnalyticalFeatures():
+                raise Violation("abscurv-leaves-ds", "%s: features %s" % (what, X.tr.getListAnalyticalFeatures()))
+            nm.pop("ds", None)
+            X.touch_other()
+        elif name == "ds":
+            X.tr.addAnalyticalFeature(af_ds)
+            nm["ds"] = "own"
+            X.touch_other()
+        elif name in ("speed_est", "speed_add"):
+            t_sp = nm.get("speed")
+            judged = name == "speed_add" or t_sp in (None, "own")
+            V = X.tr.estimate_speed() if name == "speed_est" else X.tr.addAnalyticalFeature(af_speed)
+            if judged:
+                _check_speed(V, X.spd, X.exact, what)
+                if name == "speed_add" or t_sp is None:
+                    X.touch_other()
+                nm["speed"] = "own"
+                X.judged += 1
+                have_speed = True
+            else:
+                cls.append("not-judged:speed-inherited-or-overwritten-through-shared-obs")
+        elif name == "note":
+            if "note2" not in nm:
+                X.tr.createAnalyticalFeature("note2", [float(-i) for i in range(len(X.pts))])
+                nm["note2"] = "own"
+                X.touch_other()
+        else:
+            raise HarnessError("unknown operation %r" % (op,))
+    # final state: the features still read as defined (where nothing was written through the other track since),
+    # fixes untouched
+    for X in sides.values():
+        if X.names.get("abs_curv") == "own":
+            _check_abscurv(X.tr.getAnalyticalFeature("abs_curv"), X.legs, X.cum, "feature abs_curv of the %s after %s" % (X.label, ops))
+        if X.names.get("speed") == "own":
+            _check_speed(X.tr.getAnalyticalFeature("speed"), X.spd, X.exact, "feature speed of the %s after %s" % (X.label, ops))
+        if X.tr.size() != len(X.pts):
+            raise Violation("fixes-changed", "%s has %d fixes, had %d" % (X.label, X.tr.size(), len(X.pts)))
+        for i in range(len(X.pts)):
+            o = X.tr.getObs(i)
+            now = (o.position.getX(), o.position.getY(), o.position.getZ(), gen.ms_of_obstime(o.timestamp))
+            was = X.pts[i] + (X.times[i],)
+            if not all(same(a, b) for a, b in zip(now, was)):
+                raise Violation("fixes-changed", "fix %d of the %s is %r, was %r" % (i, X.label, now, was))
+    legs, spd, exact = W.legs, W.spd, W.exact
 
     # classification
-    cls = ["exact-times" if exact else "ms-times"]
+    cls.append("exact-times" if exact else "ms-times")
+    if part is not None and "p" in sides:
+        P = sides["p"]
+        cls.append("part:" + part["how"])
+        cls.append("part:derived-first" if part["at"] == 0 else "part:derived-after-%s" % (
+            "+".join(sorted(set(ops[:part["at"]])))))
+        at = part["at"]
+        jw = [i for i, o in enumerate(ops) if "@" not in o and o not in ("note", "ds") and i >= at]
+        jp = [i for i, o in enumerate(ops) if o.endswith("@p") and o not in ("note@p", "ds@p")]
+        if any(j < i for i in jw for j in jp):
+            cls.append("part:computed-on-part-then-on-whole")
+        if any(i < j for i in jw for j in jp):
+            cls.append("part:computed-on-whole-then-on-part")
+        cls.append("part:judged-calls-on-both" if P.judged and W.judged else "part:judged-calls-on-one")
+        if len(P.pts) == n:
+            cls.append("part:all-fixes")
     pos = [l for l in legs if l > 0]
     if any(l == 0 for l in legs):
         cls.append("repeated-position")
@@ -183,18 +318,19 @@ def _run(case):
         cls.append("z-varies")
     if inh:
         cls.append("ds-inherited" + ("" if lead[:2] != pts[0][:2] else "-zero"))
-    if case["ops"].count("abs") >= 2:
+    if ops.count("abs") >= 2:
         cls.append("abs-twice")
-    if "ds" in case["ops"]:
-        cls.append("ds-added-first" if "abs" in case["ops"][case["ops"].index("ds"):] else "ds-added-last")
+    if "ds" in ops:
+        cls.append("ds-added-first" if "abs" in ops[ops.index("ds"):] else "ds-added-last")
     if have_speed and have_abs:
         cls.append("abs+speed")
     cls.append("n=2" if n == 2 else "n=3" if n == 3 else "n>=4")
     irregular = len(set(legs)) > 1 or len(set(case["dts"])) > 1
-    return {"nt": n >= 3 and irregular, "cls": cls}
+    return {"nt": n >= 3 and irregular, "cls": sorted(set(cls))}
 
 
 # --- (i) complete small scope: exact arithmetic, every repeat pattern ---------------------------------
+_HOWS = ["extract", "slice", "gt", "lt", "mod"]
 _CORNERS = [(0, 0), (3, 0), (0, 4), (3, 4)]        # all mutual distances are integers (3, 4, 5)
 
 
@@ -204,15 +340,27 @@ def enum_small(tier):
             for dts in itertools.product((0, 1000, 2000), repeat=n - 1):
                 if n == 4 and tier == "quick" and (sum(pos) * 7 + sum(dts) // 1000 * 3 + pos[0]) % 6:
                     continue
-                yield {"pts": [[_CORNERS[p][0], _CORNERS[p][1], (i * 5) % 3] for i, p in enumerate(pos)],
-                       "t0": 1577836800000, "dts": list(dts), "ops": ["abs", "speed_est"], "inherit": None,
+                pts = [[_CORNERS[p][0], _CORNERS[p][1], (i * 5) % 3] for i, p in enumerate(pos)]
+                yield {"pts": pts, "t0": 1577836800000, "dts": list(dts), "ops": ["abs", "speed_est"], "inherit": None,
                        "extra": False}
+                k = sum(pos) * 5 + sum(dts) // 1000 + pos[-1]
+                if n >= 3 and k % 3 == 0:          # a third of them also as a two-object history (part, then whole)
+                    yield {"pts": pts, "t0": 1577836800000, "dts": list(dts), "inherit": None, "extra": False,
+                           "part": {"how": _HOWS[k // 3 % len(_HOWS)], "a": k // 15, "b": k // 7, "at": 0},
+                           "ops": [["abs@p", "speed_est@p", "abs", "speed_est"], ["abs", "speed_est", "abs@p", "speed_est@p"]][k // 3 % 2]}
 
 
 # --- (ii) random tracks ------------------------------------------------------------------------------
 _OPS = [["abs"], ["abs", "abs"], ["ds", "abs"], ["abs", "speed_est"], ["speed_est", "abs"], ["speed_add"],
         ["speed_est", "speed_est"], ["speed_add", "note", "abs", "speed_add"], ["abs", "ds", "abs", "speed_est"],
         ["ds", "speed_est", "abs", "abs"], ["abs", "note", "speed_add", "ds"], ["speed_est"]]
+# two-object histories: operations on the whole track before the part is derived (none leaves a ds behind) ...
+_PRE_W = [[], [], [], [], ["abs"], ["speed_est"], ["ds", "abs"], ["abs", "speed_add"], ["note"]]
+# ... and after it ('@p' = on the derived part)
+_TWO = [["abs@p", "abs"], ["speed_est@p", "speed_est"], ["abs", "abs@p"], ["speed_est", "speed_est@p"],
+        ["abs@p", "speed_est@p", "abs", "speed_est"], ["speed_add@p", "abs", "speed_add"], ["abs@p", "speed_est"],
+        ["speed_est@p", "abs", "abs@p"], ["ds@p", "abs@p", "abs", "abs"], ["note@p", "abs@p", "note", "abs", "speed_est@p"],
+        ["abs@p", "abs@p", "abs"], ["speed_add", "abs@p", "speed_add@p", "abs"]]
 _DT_EXACT = [0, 0, 0, 125, 250, 1000, 1000, 2000, 5000, 60000, 3600000, 86400000]
 _DT_MS = [0, 0, 1, 1, 2, 7, 33, 100, 999, 1001, 1000, 59999, 86399999]
 _MAG = [1e-6, 1e-5, 1e-3, 0.1, 1.0, 1.0, 10.0, 1e3, 1e5, 1e6]
@@ -252,8 +400,21 @@ def strat_track(draw):
     if (q // 54) % 3 == 0:
         off = [(0, 0), (5, 0), (0, -0.25), (300, 400), (1e-3, 0), (-7, 7)][q % 6]
         inherit = {"pt": [pts[0][0] + off[0], pts[0][1] + off[1], pts[0][2] + (q // 6) % 3], "dt": [0, 1000, 125][(q // 18) % 3]}
-    return {"pts": pts, "t0": t0, "dts": dts, "ops": draw(st.sampled_from(_OPS)), "inherit": inherit,
+    case = {"pts": pts, "t0": t0, "dts": dts, "ops": draw(st.sampled_from(_OPS)), "inherit": inherit,
             "extra": draw(st.booleans())}
+    if draw(st.integers(0, 9)) < 4:                # two Track objects: a part derived from the track (shares its Obs)
+        pre = draw(st.sampled_from(_PRE_W))
+        if draw(st.booleans()):
+            post = list(draw(st.sampled_from(_TWO)))
+        else:
+            post = [draw(st.sampled_from(["abs", "abs", "speed_est", "speed_est", "speed_add", "ds", "note"])) +
+                    draw(st.sampled_from(["", "@p", "@p"])) for _ in range(draw(st.integers(2, 5)))]
+        case["ops"] = list(pre) + post
+        case["part"] = {"how": draw(st.sampled_from(_HOWS)), "a": draw(st.integers(0, 11)), "b": draw(st.integers(0, 11)),
+                        "at": len(pre)}
+        if "abs" not in pre:
+            case["inherit"] = None                 # the part is derived while the whole carries no ds (see ASSUMPTIONS)
+    return case
 
 
 RULE = ("small: every track of 2..4 fixes on the corners of a 3x4 rectangle (integer distances) with time steps from {0,1,2} s "
@@ -262,7 +423,10 @@ RULE = ("small: every track of 2..4 fixes on the corners of a 3x4 rectangle (int
         "time steps from fixed pools containing 0 (3/4 of the cases on the 125 ms grid where dt is exact), origin near 0 or at "
         "1e6-size coordinates, a script of 1..4 operations (computeAbsCurv once/twice, ds added before, estimate_speed, "
         "addAnalyticalFeature(speed), unrelated feature added in between), one third of the tracks obtained by "
-        "Track.extract from a longer track that already carried ds. "
+        "Track.extract from a longer track that already carried ds. 4 cases in 10 are two-object histories: after 0..2 "
+        "operations on the whole track a part is derived (extract / slice / > / < / %, any bounds leaving >= 2 fixes), then 2..5 "
+        "operations each on the part or on the whole (half from a list of part-then-whole / whole-then-part patterns, half "
+        "free), both tracks judged. small: a third of the tracks of >= 3 fixes also as part-then-whole / whole-then-part. "
         "Non-trivial: at least 3 fixes (an interior fix exists) and legs or time steps not all equal, so that off-by-one "
         "variants of the formulas give different numbers. Distinct = hash of the case.")
 
